@@ -38,6 +38,10 @@ def _norm(v, depth=0, seen=None):
             return ('dict', sorted((repr(k), _norm(x, depth + 1, seen)) for k, x in v.items()))
         except Exception:
             return ('dict', len(v))
+    if isinstance(v, types.MethodType):
+        return ('method', getattr(v.__func__, '__qualname__', repr(v)))
+    if type(v).__name__ in ('BoundMethod', 'NativeBound') and hasattr(v, 'func'):
+        return ('method', getattr(v.func, '__qualname__', repr(v)))
     if isinstance(v, (type, types.FunctionType, types.ModuleType, types.BuiltinFunctionType)):
         return ('obj', getattr(v, '__qualname__', repr(v)))
     if type(v).__name__ == 'Tok':
@@ -48,7 +52,7 @@ def _norm(v, depth=0, seen=None):
         import re
         return ('count', int(re.match(r'count\((-?\d+)\)', repr(v)).group(1)))
     if id(v) in seen:
-        return ('ref', seen[id(v)])
+        return ('ref', type(v).__name__)       # a back reference (numbering by visit order would depend on how wrappers are represented)
     d = getattr(v, '__dict__', None)
     if isinstance(d, dict):
         seen[id(v)] = len(seen)
@@ -67,10 +71,10 @@ def crosscheck(con, k, seed, repo_root, verif_root):
     # pure interpretation of every body: this checks the interpreter, not the contracts (ghost-traced externals stay)
     kept = {}
     for fid, c in cfg.contracts.items():
-        if isinstance(c, C.TraceContract):
-            kept[fid] = c
+        if isinstance(c, C.TraceContract) or (isinstance(c, C.Contract) and c.trusted):
+            kept[fid] = c       # ghost-traced externals and trusted summaries (natively: their stand-ins) are the unit's boundary
         elif isinstance(c, C._ContractChoice):
-            tr = [a for a in c.alts if isinstance(a, C.TraceContract)]
+            tr = [a for a in c.alts if isinstance(a, C.TraceContract) or (isinstance(a, C.Contract) and a.trusted)]
             if tr:
                 kept[fid] = tr[0]
     cfg.contracts = kept
